@@ -416,6 +416,53 @@ PROPS = {"C01": c01, "C19": c19, "C07": c07, "C08": c08, "C15": c15, "C16": c16,
 
 
 def replay_file(run, path):
+    """Re-executes one stored violation against /repo's current tree: exit 1 (with a VIOLATION line) if it still fails."""
+    import re as _re
+    base = os.path.basename(path)
+    if path.endswith(".ndjson"):
+        module = "Trace_Store.tla" if base.startswith("store") else "Trace_Session.tla" if base.startswith("session") else "Trace_Cands.tla"
+        cfg = os.path.join(run.dir, "replay.trace.cfg")
+        write_cfg(cfg, spec="Spec", postcondition="Accepted")
+        env = tlc_env()
+        env.update({"TRACE": os.path.abspath(path), "FOCUS": run.pid, "VERIF_GEN": os.path.join(stages.WORK, "gen")})
+        r = subprocess.run(["timeout", "600", "tlc", "-workers", "1", "-noGenerateSpecTE", "-metadir", os.path.join(run.dir, "meta-replay"), "-cleanup",
+                            "-config", cfg, module], cwd=stages.SPEC, env=env, capture_output=True, text=True)
+        m = _re.search(r'<<"TRACE-RESULT", (\d+), (\d+)>>', r.stdout)
+        print("NOTE: a recorded trace is validated as recorded; to re-record against the current tree run the check itself")
+        for l in r.stdout.split("\n"):
+            if "TRACE-" in l:
+                print(l)
+        if m and m.group(1) == m.group(2):
+            print("replay: the specification accepts this trace")
+            return 0
+        print("VIOLATION property=%s replay=%s" % (run.pid, path))
+        return 1
     doc = json.load(open(path, encoding="utf-8"))
-    print(json.dumps(doc, ensure_ascii=False, indent=1)[:4000])
+    case = doc.get("case", {})
+    beh = case.get("behaviour") or case.get("script")
+    if beh is None:
+        print(json.dumps(doc, ensure_ascii=False, indent=1)[:4000])
+        print("replay: this record has no executable behaviour (e.g. a point of the exhaustive layout pass); shown above")
+        return 0
+    if "script" in case and "vars" in case:
+        # the concretised variables of the failing variant become literals
+        beh = dict(beh)
+        beh["vars"] = {k: list(v) for k, v in case["vars"].items()}
+        beh["variants"] = 1
+    lines = os.path.join(run.dir, "replay.json")
+    open(lines, "w", encoding="utf-8").write(json.dumps(beh, ensure_ascii=False) + "\n")
+    r = subprocess.run([stages.RV, "replay-file", "--property", run.pid, "--in", lines], capture_output=True, text=True, env=stages.rv_env(), timeout=900)
+    summ = None
+    for l in r.stdout.split("\n"):
+        if l.startswith("RV-SUMMARY "):
+            summ = json.loads(l[len("RV-SUMMARY "):])
+    if summ is None:
+        print("TOOL-ERROR: replay produced no summary: " + r.stderr[-500:])
+        return 2
+    if summ["violation_count"]:
+        for v in summ["violations"][:3]:
+            print("VIOLATION property=%s replay=%s" % (run.pid, path))
+            print("   " + v["site"] + ": " + v["what"][:400])
+        return 1
+    print("replay: the behaviour no longer violates the property on the current tree (%d events)" % summ["events"])
     return 0
